@@ -1,0 +1,10 @@
+//go:build !verif
+
+// Package verifhook is a no-op unless built with the "verif" tag.
+package verifhook
+
+// Enabled reports whether the package was built with the verif tag.
+const Enabled = false
+
+// At does nothing without the verif build tag.
+func At(string, ...any) {}
